@@ -299,16 +299,22 @@ def build_all(verbose=False, force=False):
 
 # ------------------------------------------------------------------ running both sides
 
-def run_lines(exe, lines, timeout=1800, env=None):
-    """Feed case lines to an executable, return {id: result string}."""
+def run_lines(exe, lines, timeout=900, env=None):
+    """Feed case lines to an executable, return {id: result string}.  On a timeout (a case on which the program under test does
+    not terminate) the results printed so far are kept and the note names the first case without a result."""
     data = "\n".join(lines) + "\n"
+    timed_out = None
     try:
         p = subprocess.run([exe], input=data, stdout=subprocess.PIPE, stderr=subprocess.PIPE, text=True,
                            timeout=timeout, env=env)
-    except subprocess.TimeoutExpired:
-        return {}, "timeout"
+        out, rc, err = p.stdout, p.returncode, p.stderr
+    except subprocess.TimeoutExpired as e:
+        out = e.stdout or ""
+        if isinstance(out, bytes):
+            out = out.decode("utf-8", "replace")
+        rc, err, timed_out = 0, "", timeout
     res = {}
-    for line in p.stdout.split("\n"):
+    for line in out.split("\n"):
         if not line:
             continue
         i = line.find(" ")
@@ -317,8 +323,12 @@ def run_lines(exe, lines, timeout=1800, env=None):
         else:
             res[line[:i]] = line[i + 1:]
     note = ""
-    if p.returncode != 0:
-        note = "exit %d: %s" % (p.returncode, p.stderr[-500:])
+    if timed_out is not None:
+        missing = [l.split(" ", 1)[0] for l in lines if l.split(" ", 1)[0] not in res]
+        note = "timeout after %d s; %d of %d cases have no result, the first being %s" % (timed_out, len(missing), len(lines), (missing[0] + ": " + next(
+            l for l in lines if l.startswith(missing[0] + " "))[:300]) if missing else "-")
+    elif rc != 0:
+        note = "exit %d: %s" % (rc, err[-500:])
     return res, note
 
 
@@ -339,7 +349,7 @@ def env_gates():
     return sorted(names)
 
 
-def run_impl(lines, timeout=1800, extra_env=None):
+def run_impl(lines, timeout=900, extra_env=None):
     res, note = run_lines(os.path.join(BUILD, "spgdrive"), lines, timeout, env=dict(GOENV, **extra_env) if extra_env else GOENV)
     for k, v in list(res.items()):
         i = v.rfind(" pmsg=")
@@ -362,7 +372,7 @@ def model_env(extra=None):
     return env
 
 
-def run_model(lines, timeout=1800):
+def run_model(lines, timeout=900):
     MODEL_LINES.extend(lines)
     return run_lines(os.path.join(BUILD, "modelrun"), lines, timeout, env=model_env())
 
